@@ -237,6 +237,17 @@ class Indicators(Part):
             else:
                 comp = [[rng.randint(0, 12) for _ in range(dim)] for _ in range(nc)]
             cases.append({"ref": ref, "comp": comp, "tuples": rng.random() < 0.5})
+        # large computed sets (a final population of a few hundred designs): sizes around the powers of two, distances spread unevenly
+        for nc in (127, 128, 129, 130, 200, 257, 300) if ctx.quick else (64, 65, 127, 128, 129, 130, 200, 255, 256, 257, 300, 511, 513, 600):
+            for uneven in (False, True):
+                dim = rng.randint(1, 3)
+                ref = [[rng.randint(0, 12) for _ in range(dim)] for _ in range(rng.randint(1, 6))]
+                if uneven:
+                    comp = [list(rng.choice(ref)) for _ in range(nc - rng.randint(1, 3))]
+                    comp += [[rng.randint(8, 12) for _ in range(dim)] for _ in range(nc - len(comp))]
+                else:
+                    comp = [[rng.randint(0, 12) for _ in range(dim)] for _ in range(nc)]
+                cases.append({"ref": ref, "comp": comp, "tuples": rng.random() < 0.5})
         return cases
 
     def run_case(self, ctx, case):
